@@ -218,9 +218,12 @@ def ed448_blob(tag=b''):
 ECDSA_LEN = {256: 32, 384: 48, 521: 66}
 
 
-def ecdsa_blob(curve=256, tag=b''):
+def ecdsa_blob(curve=256, tag=b'', compressed=False):
     ln = ECDSA_LEN[curve]
     q = b'\x04' + (hashlib.sha512(b'ecx%d' % curve + tag).digest() * 2)[:ln] + (hashlib.sha512(b'ecy%d' % curve + tag).digest() * 2)[:ln]
+    if compressed:
+        # SEC1 2.3.3 compressed form (RFC 5656 section 3.1: point compression MAY be used): 0x02/0x03 and the X coordinate only
+        q = bytes([2 + (q[-1] & 1)]) + q[1:1 + ln]
     return string(b'ecdsa-sha2-nistp%d' % curve) + string(b'nistp%d' % curve) + string(q)
 
 
@@ -240,7 +243,7 @@ def key_blob(spec, tag=b''):
     if t == 'ed448':
         return ed448_blob(tag)
     if t == 'ecdsa':
-        return ecdsa_blob(spec.get('bits', 256), tag)
+        return ecdsa_blob(spec.get('bits', 256), tag, compressed=bool(spec.get('compressed')))
     if t == 'dss':
         return dss_blob(spec.get('bits', 1024), tag)
     if t in ('rsa-cert', 'ed25519-cert'):
